@@ -137,11 +137,17 @@ func (db *DB) newMem(n int) (mem *memDB, err error) {
 	if db.journal == nil {
 		db.journal = journal.NewWriter(w)
 	} else {
+		// Reset makes the journal write to the new file even when it fails
+		// to flush the old one, so the switch has to be completed: returning
+		// here would leave the journal writing to a file that is neither
+		// synced nor known as the journal. Nothing acknowledged is lost with
+		// the old file's error: a write is acknowledged only after its
+		// record has been flushed (and synced, if asked for).
 		if err := db.journal.Reset(w); err != nil {
-			return nil, err
+			db.logf("journal@rotate flushing J·%d error %q", db.journalFd.Num, err)
 		}
 		if err := db.journalWriter.Close(); err != nil {
-			return nil, err
+			db.logf("journal@rotate closing J·%d error %q", db.journalFd.Num, err)
 		}
 		db.frozenJournalFd = db.journalFd
 	}
